@@ -93,7 +93,10 @@ func run(c *core.Ctx) {
 		if (i-1)%nShards != shard || c.Expired() {
 			return
 		}
-		caseNo, _ := c.Begin()
+		caseNo, run := c.Begin()
+		if c.Skip(caseNo, run, Input{Augs: augs}) {
+			return
+		}
 		f, wantErr, execs := check(augs)
 		c.Execs(int64(execs))
 		c.Validates(int64(execs))
